@@ -251,5 +251,76 @@ def main(run):
         run.nontriv(("expl", cls.__name__, dyn, alpha, d, n_inner, pattern, mag, offset))
         if len(run.samples) < 3:
             run.sample({**replay, "float_importance": fl, "exact_importance": {k: float(v) for k, v in ex.items()}, "bound": bound})
+    # ---------------- SAGE runs on class-probability outputs of very different magnitudes (1 next to 1e-20, 1e8 next to 1e-8): the
+    # normalised marginal prediction stays within a few n*eps (relative) of the exact quotient, and every result stays finite
+    for r in range(12 if not thorough else 36):
+        if r % nsh != sh % 12 and nsh > 1 and not thorough:
+            continue
+        dyn = r % 2 == 0
+        alpha = rnd.choice([0.01, 0.1, 0.5])
+        big, small = [(1.0, 1e-20), (1e8, 1e-8), (1.0, 1e-9), (0.75, 0.25)][(r // 2) % 4]
+        order = r % 4 < 2               # which label comes first in the output dicts
+        third = r % 5 == 0              # a third label that some outputs omit
+        HI, LO = [("hi", "lo"), ("lo", "hi"), (0, 1), (1, 0), ("neg", "pos"), ("pos", "neg")][r % 6]   # (names decide the tracker's key order)
+        steps = 150 if not thorough else 600
+        names = ["a", "b"]
+
+        def model(x, big=big, small=small, order=order, third=third, HI=HI, LO=LO):
+            pb, ps = big * (1 + 0.25 * x["a"]), small * (1 + x["b"])
+            out = {HI: pb, LO: ps} if order else {LO: ps, HI: pb}
+            if third and x["a"] > 0.5:
+                out["mid"] = math.sqrt(big * small) * (1 + x["b"])
+            return out
+
+        def loss(y, p):
+            return -math.log(p.get(y, 0.0) + 1e-300)
+        random.seed(1000 + r)
+        e = IncrementalSage(model, loss, names, smoothing_alpha=alpha, n_inner_samples=2, dynamic_setting=dyn,
+                            storage=GeometricReservoirStorage(size=5, store_targets=False))
+        srnd = random.Random(77 + r + run.shard_seed)
+        hist = {}
+        tcount = 0
+        bad = False
+        for t in range(steps):
+            x = {"a": srnd.random(), "b": srnd.random()}
+            y = srnd.choice([HI, LO])
+            e.explain_one(x, y)
+            if t == 0:
+                continue
+            out = model(x)
+            tcount += 1
+            for lab in out:
+                hist.setdefault(lab, [])
+            for lab in hist:
+                hist[lab].append(Fraction(out.get(lab, 0.0)))
+            ex = {}
+            a_x = Fraction(alpha)
+            for lab, vs in hist.items():
+                if dyn:
+                    acc = Fraction(0)
+                    for v in vs:
+                        acc = (1 - a_x) * acc + a_x * v
+                    ex[lab] = acc
+                else:
+                    ex[lab] = sum(vs) / len(vs)
+            if t % 10 != 3 and t != steps - 1:
+                continue
+            tot = sum(ex.values())
+            mp = e.marginal_prediction
+            run.ok(kind="probability-outputs")
+            tol = 64 * EPS * max(tcount, 2 / alpha)
+            vals = list(e.importance_values.values()) + list(e.variances.values()) + [e.marginal_loss, e.model_loss] + list(mp.values())
+            replay = {"dynamic": dyn, "alpha": alpha, "magnitudes": [big, small], "first_label_hi": order, "third_label": third, "step": t}
+            if not all(math.isfinite(float(v)) for v in vals):
+                run.violation("non-finite", f"IncrementalSage on probability outputs of magnitudes {big:g}/{small:g} (dyn={dyn}, alpha={alpha}) step {t}: "
+                                            f"importance {e.importance_values!r} variances {e.variances!r} marginal_loss {e.marginal_loss!r}", replay)
+                bad = True
+            elif set(mp) != set(ex) or any(abs(Fraction(float(mp[lab])) - ex[lab] / tot) > tol * (ex[lab] / tot) for lab in ex):
+                run.violation("explainer-error", f"IncrementalSage marginal prediction on outputs of magnitudes {big:g}/{small:g} (dyn={dyn}, alpha={alpha}) step {t}: "
+                                                 f"{mp!r}, exact quotients { {lab: float(ex[lab] / tot) for lab in ex} !r} (relative tolerance {tol:.2g})", replay)
+                bad = True
+            if bad:
+                break
+        run.nontriv(("prob-outputs", r, run.shard[0]))
     for k, v in worst.items():
         run.notes["worst_error_over_bound_" + k] = v
